@@ -1,19 +1,26 @@
 /* E1 harnesses for C14 (hazard pointers: nothing reclaimed while protected, garbage bounded) -
  * sequential part.  Real code under test (unmodified, #include of the real .c / .h):
- *   src/hazard_pointer.c  : hazard_pointer_scan, binary_search, hazard_pointer_compare,
- *                           hazard_pointer_thread_record_create_and_push
- *   include/hazard_pointer.h : hazard_pointer_free (inline), hazard_pointer_using / _done_using
+ *   src/hazard_pointer.c     : hazard_pointer_scan, binary_search, hazard_pointer_compare,
+ *                              hazard_pointer_thread_record_create_and_push
+ *   include/hazard_pointer.h : hazard_pointer_free (inline), hazard_pointer_using (inline)
  *
  * ADDRESS MODEL.  CBMC compares pointers into DIFFERENT objects by offset only (measured with cbmc 6.11:
  * `p < q` and `(uintptr_t)p < (uintptr_t)q` disagree for two distinct objects), which would make the
- * address sort / binary search meaningless.  Therefore every address that is sorted or searched - all
- * retired nodes and all hazard-slot contents - lies inside ONE array object `pool[PM]`; which element is
- * a nondeterministic index.  Inside one object CBMC's `<`, `>`, `==` and the uintptr_t view used by
- * hazard_pointer_compare are the ordinary address order, and with PM >= (#retired + #slots) every
- * relative order / equality pattern between retired and protected addresses is realised.
+ * address sort / binary search meaningless.  Therefore every address that is sorted or searched lies
+ * inside ONE array object `pool[PM]` of hazard_node_t:
+ *   - retired nodes are pool elements 1..PM-1 (which ones, and in which retirement order, is nondet);
+ *   - a hazard slot holds NULL or ANY byte address inside the pool object, (char*)pool + off with nondet
+ *     off: the address of a retired node (off = 24*i), or one of the 23 addresses between two
+ *     neighbouring nodes, below the first (element 0 is never retired) or above the last.  Slot contents
+ *     are only compared by the library, never dereferenced.
+ * Inside one object CBMC's `<`, `>`, `==` and the uintptr_t view used by hazard_pointer_compare are the
+ * ordinary address order, so every relative order / equality pattern between <= 6 slot values and the
+ * retired nodes is covered (23 >= 6 distinct addresses fit in every gap).
  *
- * qsort: cbmc 6.11 ships no body for qsort.  Stub below = insertion sort over the (<= 6) pointer-sized
+ * qsort: cbmc 6.11 ships no body for qsort.  Stub = insertion sort over the (<= N*K) pointer-sized
  * elements that calls the comparison function it is given, i.e. the REAL hazard_pointer_compare.
+ * calloc: see below.  malloc/free: CBMC's model (exact object sizes; the default pointer/bounds checks
+ * of cbmc 6 flag any access outside the scratch list `plist` inside the real code).
  */
 #include <stdint.h>
 #include <stdlib.h>
@@ -38,16 +45,19 @@ void qsort(void* base, size_t nmemb, size_t size, int (*compar)(const void*, con
 
 #include "hazard_pointer.h"
 
+/* one job per configuration: N records with K hazard slots each are compile-time constants (the plan
+ * enumerates all pairs), which keeps allocation sizes and loop bounds concrete */
 #ifndef CFG_N
 #define CFG_N 2
 #endif
 #ifndef CFG_K
 #define CFG_K 2
 #endif
+
 /* checker's stand-in for calloc (not code under test): thread records come from TYPED static storage of
  * exactly the requested size (record header + K slots).  With CBMC's own calloc a record with a flexible
  * array member is an untyped byte array, every pointer read back from it may point anywhere and the
- * formula explodes (measured: > 100 s for one record).  Size and zero-initialisation are checked/kept. */
+ * formula explodes (measured: > 100 s for a single record).  Size and zero-initialisation are kept. */
 struct rec_storage {
   hazard_pointer_thread_record_t r;
   hazard_node_t* slots[CFG_K]; /* the flexible array member r.hazard_pointers[] lives here */
@@ -75,31 +85,19 @@ size_t nondet_size(void);
 #define WITNESS_END()
 #endif
 
-/* one job per configuration: N records with K hazard slots each are compile-time constants (the plan
- * enumerates all pairs), which keeps allocation sizes and loop bounds concrete */
-#ifndef CFG_N
-#define CFG_N 2
-#endif
-#ifndef CFG_K
-#define CFG_K 2
-#endif
-#define NMAX CFG_N
-#define KMAX CFG_K
 #ifndef RMAX
-#define RMAX 4 /* retired nodes */
+#define RMAX 4 /* retired nodes handled in one harness run */
 #endif
-#ifndef PM
-#define PM 10 /* pool size = number of distinct addresses */
-#endif
+#define PM (RMAX + 1) /* pool elements; element 0 is never retired */
 
 static hazard_node_t pool[PM];
-static unsigned gc_calls[PM];  /* how often pool[i] was handed to the reclamation callback */
-static unsigned gc_foreign;    /* callback invoked with a pointer outside the pool / wrong cookie */
+static unsigned gc_calls[PM]; /* how often pool[i] was handed to the reclamation callback */
+static unsigned gc_foreign;   /* callback invoked with something else / with the wrong gc_data */
 static char cookie[PM];
 
 static void the_gc(void* gc_data, hazard_node_t* node) {
   _Bool hit = 0;
-  for (int i = 0; i < PM; ++i) {
+  for (int i = 1; i < PM; ++i) {
     if (node == &pool[i]) {
       hit = 1;
       gc_calls[i]++;
@@ -110,130 +108,122 @@ static void the_gc(void* gc_data, hazard_node_t* node) {
 }
 
 static _Atomic(hazard_pointer_thread_record_t*) g_head;
-static hazard_pointer_thread_record_t* recs[NMAX];
-static int g_n, g_k;
+static hazard_pointer_thread_record_t* recs[CFG_N];
 
 /* N records with K slots each, built by the REAL create_and_push, called one after the other */
 static void build_records(void) {
-  g_n = CFG_N;
-  g_k = CFG_K;
   rec_used = 0;
   g_head = NULL;
-  for (int i = 0; i < NMAX; ++i) {
-    recs[i] = NULL;
-    if (i < g_n) recs[i] = hazard_pointer_thread_record_create_and_push(&g_head, (size_t)g_k); /* REAL */
-  }
+  for (int i = 0; i < CFG_N; ++i)
+    recs[i] = hazard_pointer_thread_record_create_and_push(&g_head, (size_t)CFG_K); /* REAL */
+  for (int i = 0; i < PM; ++i) gc_calls[i] = 0;
+  gc_foreign = 0;
 }
 
-/* arbitrary hazard slot contents: NULL or the address of ANY pool element (duplicates allowed) */
-static void havoc_slots(int forbidden /* pool index no slot may hold, or -1 */) {
-  for (int i = 0; i < NMAX; ++i) {
-    if (i < g_n) {
-      for (int k = 0; k < KMAX; ++k) {
-        if (k < g_k) {
-          hazard_node_t* v = NULL;
-          if (nondet_bool()) {
-            unsigned j = nondet_unsigned();
-            __CPROVER_assume(j < PM && (int)j != forbidden);
-            v = &pool[j];
-          }
-          if (nondet_bool()) hazard_pointer_using(recs[i], v, (size_t)k); /* REAL publish */
-          else recs[i]->hazard_pointers[k] = v;
-        }
+/* arbitrary hazard slot contents: NULL or any address inside the pool (duplicates allowed);
+ * `forbidden` >= 1: no slot holds the address of pool[forbidden] */
+static void havoc_slots(int forbidden) {
+  for (int i = 0; i < CFG_N; ++i) {
+    for (int k = 0; k < CFG_K; ++k) {
+      hazard_node_t* v = NULL;
+      if (nondet_bool()) {
+        size_t off = nondet_size();
+        __CPROVER_assume(off < sizeof(pool));
+        v = (hazard_node_t*)((char*)pool + off);
+        if (forbidden >= 1) __CPROVER_assume(v != &pool[forbidden]);
       }
+      if (nondet_bool()) hazard_pointer_using(recs[i], v, (size_t)k); /* REAL publish */
+      else recs[i]->hazard_pointers[k] = v;
     }
   }
 }
 
 static _Bool is_protected(const hazard_node_t* p) {
   _Bool prot = 0;
-  for (int i = 0; i < NMAX; ++i)
-    if (i < g_n)
-      for (int k = 0; k < KMAX; ++k)
-        if (k < g_k && recs[i]->hazard_pointers[k] == p) prot = 1;
+  for (int i = 0; i < CFG_N; ++i)
+    for (int k = 0; k < CFG_K; ++k)
+      if (recs[i]->hazard_pointers[k] == p) prot = 1;
   return prot;
 }
 
-static void reset_ghost(void) {
-  for (int i = 0; i < PM; ++i) gc_calls[i] = 0;
-  gc_foreign = 0;
-}
+/* the acting record is any of the N records (head, middle, tail of the list): CFG_ME = creation index,
+ * compile-time per job (the plan enumerates 0..N-1), so that symbolic execution works with a concrete
+ * record pointer and every job stays small */
+#ifndef CFG_ME
+#define CFG_ME 0
+#endif
+#define FOR_EACH_RECORD(body) body(recs[CFG_ME % CFG_N])
 
 /* ------------------------------------------------------------------ 2. threshold arithmetic */
 void h_threshold(void) {
   build_records();
   size_t len = 0;
   hazard_pointer_thread_record_t* cur = g_head;
-  for (int i = 0; i <= NMAX && cur; ++i) {
+  for (int i = 0; i <= CFG_N && cur; ++i) {
     ++len;
-    __CPROVER_assert(cur->retire_threshold == 2 * (size_t)g_n * (size_t)g_k,
+    __CPROVER_assert(cur->retire_threshold == 2 * (size_t)CFG_N * (size_t)CFG_K,
                      "after N sequential registrations every record has retire_threshold == 2*N*K");
-    __CPROVER_assert(cur->hazard_pointers_count == (size_t)g_k, "record keeps its K");
+    __CPROVER_assert(cur->hazard_pointers_count == (size_t)CFG_K, "record keeps its K");
     __CPROVER_assert(cur->head == &g_head, "record points to the list head");
     __CPROVER_assert(cur->retired_count == 0 && cur->retired_list == NULL && cur->plist == NULL && cur->plist_size == 0,
                      "fresh record has no retired nodes and no scratch list");
-    for (int k = 0; k < KMAX; ++k)
-      if (k < g_k) __CPROVER_assert(cur->hazard_pointers[k] == NULL, "fresh record protects nothing");
+    for (int k = 0; k < CFG_K; ++k) __CPROVER_assert(cur->hazard_pointers[k] == NULL, "fresh record protects nothing");
+    if (i < CFG_N) __CPROVER_assert(cur == recs[CFG_N - 1 - i], "records are linked newest first");
     cur = cur->next;
   }
-  __CPROVER_assert(cur == NULL && len == (size_t)g_n, "record list holds exactly the N registered records");
-  for (int i = 0; i < NMAX; ++i)
-    if (i < g_n) __CPROVER_assert(recs[g_n - 1] == g_head, "the last registered record is the head");
+  __CPROVER_assert(cur == NULL && len == (size_t)CFG_N, "record list holds exactly the N registered records");
   WITNESS_END();
 }
 
 /* ------------------------------------------------------------------ retired-list construction */
-static int ridx[2 * RMAX]; /* pool indices of the retired nodes, in retirement order */
+static _Bool retired[PM]; /* ghost: pool[i] is currently retired (in the record's retired list) */
 
-/* push `cnt` distinct pool nodes onto hptr's retired list exactly as hazard_pointer_free does
- * (without its threshold test): representation invariant of a record = NULL-terminated list of
- * pairwise distinct nodes, retired_count == its length, gc_function set */
-static void retire_directly(hazard_pointer_thread_record_t* hptr, int first, int cnt) {
+static void prepare_node(unsigned j) {
+  pool[j].gc_function = the_gc;
+  pool[j].gc_data = &cookie[j];
+}
+
+/* push `cnt` pairwise distinct pool nodes onto hptr's retired list exactly as hazard_pointer_free does
+ * (minus its threshold test).  Representation invariant of a record: NULL-terminated list of pairwise
+ * distinct nodes, retired_count == its length, gc_function set. */
+static void retire_directly(hazard_pointer_thread_record_t* hptr, int cnt) {
+  for (int i = 0; i < PM; ++i) retired[i] = 0;
   for (int r = 0; r < RMAX; ++r) {
     if (r < cnt) {
       unsigned j = nondet_unsigned();
-      __CPROVER_assume(j < PM);
-      for (int q = 0; q < first + r; ++q) __CPROVER_assume(ridx[q] != (int)j); /* a node is retired once */
-      ridx[first + r] = (int)j;
-      hazard_node_t* node = &pool[j];
-      node->gc_function = the_gc;
-      node->gc_data = &cookie[j];
-      node->next = hptr->retired_list;
-      hptr->retired_list = node;
+      __CPROVER_assume(j >= 1 && j < PM && !retired[j]); /* a node is retired once */
+      retired[j] = 1;
+      prepare_node(j);
+      pool[j].next = hptr->retired_list;
+      hptr->retired_list = &pool[j];
       ++hptr->retired_count;
     }
   }
 }
 
 /* post-state of a scan: reclaimed iff unprotected, the rest is exactly the retired list */
-static void check_after_scan(hazard_pointer_thread_record_t* hptr, int total) {
+static void check_after_scan(hazard_pointer_thread_record_t* hptr) {
   __CPROVER_assert(gc_foreign == 0, "reclamation callback only receives retired nodes with their own gc_data");
   unsigned expect_left = 0;
-  _Bool retired[PM];
-  for (int i = 0; i < PM; ++i) retired[i] = 0;
-  for (int r = 0; r < 2 * RMAX; ++r) {
-    if (r < total) {
-      const int j = ridx[r];
-      retired[j] = 1;
-      const _Bool prot = is_protected(&pool[j]);
-      if (prot) {
+  for (int i = 1; i < PM; ++i) {
+    if (retired[i]) {
+      if (is_protected(&pool[i])) {
         ++expect_left;
-        __CPROVER_assert(gc_calls[j] == 0, "a retired node that is in some hazard slot is NOT handed to its reclamation callback");
+        __CPROVER_assert(gc_calls[i] == 0, "a retired node that is in some hazard slot is NOT handed to its reclamation callback");
       } else {
-        __CPROVER_assert(gc_calls[j] == 1, "a retired node that is in no hazard slot is reclaimed exactly once by the scan");
+        __CPROVER_assert(gc_calls[i] == 1, "a retired node that is in no hazard slot is reclaimed exactly once by the scan");
       }
+    } else {
+      __CPROVER_assert(gc_calls[i] == 0, "nodes that were not retired are not reclaimed");
     }
   }
-  for (int i = 0; i < PM; ++i)
-    if (!retired[i]) __CPROVER_assert(gc_calls[i] == 0, "nodes that were never retired are never reclaimed");
-  /* remaining list */
   unsigned seen[PM];
   for (int i = 0; i < PM; ++i) seen[i] = 0;
   unsigned len = 0;
   hazard_node_t* cur = hptr->retired_list;
-  for (int s = 0; s <= 2 * RMAX && cur; ++s) {
+  for (int s = 0; s < PM && cur; ++s) {
     _Bool in_pool = 0;
-    for (int i = 0; i < PM; ++i)
+    for (int i = 1; i < PM; ++i)
       if (cur == &pool[i]) {
         in_pool = 1;
         seen[i]++;
@@ -243,7 +233,7 @@ static void check_after_scan(hazard_pointer_thread_record_t* hptr, int total) {
     cur = cur->next;
   }
   __CPROVER_assert(cur == NULL, "retired list is NULL terminated and acyclic");
-  for (int i = 0; i < PM; ++i) {
+  for (int i = 1; i < PM; ++i) {
     const _Bool should = retired[i] && is_protected(&pool[i]);
     __CPROVER_assert(seen[i] == (should ? 1u : 0u), "after a scan the retired list holds exactly the still protected retired nodes, each once");
   }
@@ -251,58 +241,48 @@ static void check_after_scan(hazard_pointer_thread_record_t* hptr, int total) {
 }
 
 /* ------------------------------------------------------------------ 1. hazard_pointer_scan */
-void h_scan(void) {
-  build_records();
-  reset_ghost();
-  int me = nondet_int();
-  __CPROVER_assume(me >= 0 && me < g_n);
-  hazard_pointer_thread_record_t* hptr = recs[me];
+static void scan_body(hazard_pointer_thread_record_t* hptr) {
 #ifdef PRESCAN
-  /* the scanning record may already own a scratch list from an earlier scan (here: with nothing retired) */
+  /* the scanning record may already own a scratch list from an earlier scan */
   if (nondet_bool()) hazard_pointer_scan(hptr); /* REAL */
 #endif
   havoc_slots(-1);
   int cnt = nondet_int();
   __CPROVER_assume(cnt >= 0 && cnt <= RMAX);
-  retire_directly(hptr, 0, cnt);
+  retire_directly(hptr, cnt);
 
   hazard_pointer_scan(hptr); /* REAL */
 
-  check_after_scan(hptr, cnt);
-  /* scratch list: sized for every slot of every record (CBMC's bounds / pointer checks, on by default,
-   * flag any write beyond it inside the real code) */
-  __CPROVER_assert(hptr->plist != NULL && hptr->plist_size == (size_t)g_n * (size_t)g_k,
+  check_after_scan(hptr);
+  __CPROVER_assert(hptr->plist != NULL && hptr->plist_size == (size_t)CFG_N * (size_t)CFG_K,
                    "scan sizes its scratch list for all N*K hazard slots");
   WITNESS_END();
 }
 
-/* ------------------------------------------------------------------ 2b. hazard_pointer_free, one step */
-/* from ANY state satisfying the record invariant (c retired nodes, c < retire_threshold) one more
- * retirement: either the count grows by one (no scan, nothing reclaimed), or the threshold is reached
- * and the scan reclaims every unprotected retired node.  In both cases retired_count < retire_threshold
- * again and retired_count grows by at most one per retirement, hence: an unprotected retired node
- * survives fewer than retire_threshold further retirements by the same record. */
-void h_free_step(void) {
+void h_scan(void) {
   build_records();
-  reset_ghost();
-  int me = nondet_int();
-  __CPROVER_assume(me >= 0 && me < g_n);
-  hazard_pointer_thread_record_t* hptr = recs[me];
+  FOR_EACH_RECORD(scan_body);
+}
+
+/* ------------------------------------------------------------------ 2b. hazard_pointer_free, one step */
+/* From ANY state satisfying the record invariant (c retired nodes, c < retire_threshold) one more
+ * retirement: either the count grows by one (no scan, nothing reclaimed), or the threshold is reached
+ * and the scan reclaims every unprotected retired node.  Either way retired_count < retire_threshold
+ * again.  Since the count grows by exactly one per retirement until it hits the threshold, an unprotected
+ * retired node survives at most retire_threshold-1 further retirements by the same record.
+ * Needs RMAX >= 2*N*K (all retire_threshold nodes live in the pool). */
+static void free_step_body(hazard_pointer_thread_record_t* hptr) {
   const size_t R = hptr->retire_threshold;
-  __CPROVER_assume(R <= RMAX); /* bound: configurations with 2*N*K <= RMAX */
+  __CPROVER_assert(R == 2 * (size_t)CFG_N * (size_t)CFG_K && R <= RMAX, "harness bound: pool holds retire_threshold nodes");
   havoc_slots(-1);
   int c = nondet_int();
   __CPROVER_assume(c >= 0 && (size_t)c < R);
-  retire_directly(hptr, 0, c);
+  retire_directly(hptr, c);
 
-  /* the node being retired now: distinct from all retired ones (a node is retired once) */
-  unsigned x = nondet_unsigned();
-  __CPROVER_assume(x < PM);
-  for (int q = 0; q < RMAX; ++q)
-    if (q < c) __CPROVER_assume(ridx[q] != (int)x);
-  ridx[c] = (int)x;
-  pool[x].gc_function = the_gc;
-  pool[x].gc_data = &cookie[x];
+  unsigned x = nondet_unsigned(); /* the node retired now: distinct from all retired ones */
+  __CPROVER_assume(x >= 1 && x < PM && !retired[x]);
+  prepare_node(x);
+  retired[x] = 1;
   hazard_node_t* const old_list = hptr->retired_list;
 
   hazard_pointer_free(hptr, &pool[x]); /* REAL */
@@ -313,56 +293,58 @@ void h_free_step(void) {
                      "below the threshold a retirement only pushes the node (count + 1)");
     for (int i = 0; i < PM; ++i) __CPROVER_assert(gc_calls[i] == 0 && gc_foreign == 0, "below the threshold nothing is reclaimed");
   } else {
-    check_after_scan(hptr, c + 1);
-    __CPROVER_assert(hptr->retired_count <= (size_t)g_n * (size_t)g_k,
+    check_after_scan(hptr);
+    __CPROVER_assert(hptr->retired_count <= (size_t)CFG_N * (size_t)CFG_K,
                      "a scan leaves at most N*K (= retire_threshold/2) retired nodes, all of them protected");
   }
   WITNESS_END();
 }
 
-/* ------------------------------------------------------------------ 2c. bounded garbage, multi-step */
-/* X is retired while unprotected and stays unprotected; slot contents otherwise change arbitrarily
- * between retirements; after at most retire_threshold-1 further retirements X has been reclaimed
- * (exactly once), whatever the earlier retired nodes and their protection. */
-void h_bounded_garbage(void) {
+void h_free_step(void) {
   build_records();
-  reset_ghost();
-  int me = nondet_int();
-  __CPROVER_assume(me >= 0 && me < g_n);
-  hazard_pointer_thread_record_t* hptr = recs[me];
+  FOR_EACH_RECORD(free_step_body);
+}
+
+/* ------------------------------------------------------------------ 2c. bounded garbage, multi-step */
+/* X is retired while unprotected and stays unprotected; all other slot contents change arbitrarily
+ * between retirements; earlier retired nodes may be protected or not.  After at most retire_threshold-1
+ * further retirements by the same record X has been reclaimed (exactly once).  Nodes reclaimed by a scan
+ * may be retired again later (address reuse).  Needs RMAX >= 2*R - 1 so that a fresh node always exists. */
+static void bounded_garbage_body(hazard_pointer_thread_record_t* hptr) {
   const size_t R = hptr->retire_threshold;
-  __CPROVER_assume(R <= RMAX);
+  __CPROVER_assert(2 * R - 1 <= RMAX, "harness bound: pool holds 2*retire_threshold-1 nodes");
   int c = nondet_int();
   __CPROVER_assume(c >= 0 && (size_t)c < R);
   unsigned x = nondet_unsigned();
-  __CPROVER_assume(x < PM);
+  __CPROVER_assume(x >= 1 && x < PM);
   havoc_slots((int)x);
-  retire_directly(hptr, 0, c);
-  for (int q = 0; q < RMAX; ++q)
-    if (q < c) __CPROVER_assume(ridx[q] != (int)x);
-  ridx[c] = (int)x;
-  pool[x].gc_function = the_gc;
-  pool[x].gc_data = &cookie[x];
+  retire_directly(hptr, c);
+  __CPROVER_assume(!retired[x]);
+  prepare_node(x);
+  retired[x] = 1;
   hazard_pointer_free(hptr, &pool[x]); /* REAL: retire X */
-  int total = c + 1;
-  unsigned further = 0;
-  for (int s = 0; s < RMAX - 1; ++s) {
-    if (gc_calls[x] == 0 && further + 1 < R) {
+  for (size_t s = 0; s + 1 < 2 * (size_t)CFG_N * (size_t)CFG_K; ++s) { /* at most R-1 further retirements */
+    if (gc_calls[x] == 0) {
+      /* ghost bookkeeping: whatever a scan reclaimed is no longer retired */
+      for (int i = 1; i < PM; ++i)
+        if (gc_calls[i]) retired[i] = 0;
       havoc_slots((int)x); /* other threads publish / clear hazard pointers, never to X */
       unsigned y = nondet_unsigned();
-      __CPROVER_assume(y < PM && gc_calls[y] == 0);
-      for (int q = 0; q < 2 * RMAX; ++q)
-        if (q < total) __CPROVER_assume(ridx[q] != (int)y);
-      ridx[total++] = (int)y;
-      pool[y].gc_function = the_gc;
-      pool[y].gc_data = &cookie[y];
+      __CPROVER_assume(y >= 1 && y < PM && !retired[y] && gc_calls[y] == 0);
+      prepare_node(y);
+      retired[y] = 1;
       hazard_pointer_free(hptr, &pool[y]); /* REAL */
-      ++further;
     }
   }
   __CPROVER_assert(gc_calls[x] == 1, "a retired, unprotected node is reclaimed (once) within retire_threshold-1 further retirements by the same record");
   __CPROVER_assert(gc_foreign == 0, "reclamation callback only receives retired nodes with their own gc_data");
+  for (int i = 1; i < PM; ++i) __CPROVER_assert(gc_calls[i] <= 1, "no node is reclaimed twice");
   WITNESS_END();
+}
+
+void h_bounded_garbage(void) {
+  build_records();
+  FOR_EACH_RECORD(bounded_garbage_body);
 }
 
 /* ------------------------------------------------------------------ 3. binary_search alone */
